@@ -247,3 +247,20 @@ META["C09"] = {'design_ref': 'DESIGN.md §5 C09',
          'ReconcilePeerStreams desired sets = cross-cluster pairs and their inverses, nothing else survives. Model tied to 2-3 real '
          'shardManagerImpls per schedule (exhaustive interleavings + random) step by step, to the real delivery functions over the full cross '
          'product (real gRPC receiver for acks), and to the real ReconcilePeerStreams with real gRPC peers.'}
+
+
+META["C08"] = {'design_ref': 'DESIGN.md §5 C08',
+ 'note': 'Trusted: Lean kernel; axioms propext/Classical.choice/Quot.sound only; the theorem statements; the Go harness (generators, canonicaliser) '
+         "that ties the hand-written model to /repo by differential execution on every run. Modelled not verified: Go's scheduler (explored through "
+         '17 schedule points per stream: 4 verifPoint hooks + 13 log statements), gRPC stream cancellation/half-close (GrpcStreamEnv), time.Now() '
+         'resolution (distinct stamps are a hypothesis), memberlist announcements as a replay trigger (in the model, not driven on the real code).',
+ 'technique': 'Lean 4 invariant proofs over a fine-grained transition system (all interleavings) + kernel-checked refutations + '
+              'deterministic-scheduler correspondence with the real code',
+ 'text': 'Theorems over a fine-grained transition system (one atomic step of one goroutine per action; any number of shards and incarnations, EVERY '
+         'interleaving): the identity-checked registries (send and ack channels) never keep or lose a foreign entry, unconditionally; under explicit '
+         'decidable hypotheses, each excluding one interleaving window, no send reaches a closed channel outside recover (ReplayOK), every clean-up '
+         'removes only its own entries (StampsOK, UnregOK, RecvOK), nothing remains once all streams ended (RecvOK, OpenOK) and at quiescence every '
+         'registry holds exactly the newest live incarnation (all but ReplayOK) - all proved by induction over ~25 invariants, no sorry. The full '
+         'statement is refuted for the current tree by six kernel-checked witnesses (each shown to violate exactly one hypothesis), all replayed '
+         'deterministically on the real code on every run (known findings C08-*); the pre-fix clean-up (0c8aedd) is refuted on the plain reconnect. '
+         'Model tied to the real shard manager + routing servers by a deterministic point-level scheduler inside synctest bubbles.'}
